@@ -49,21 +49,23 @@ Definition faults_of (L : list (list nat)) : faults :=
 
 (* the model's answer for a life-cycle case: None when the recorded orders are not valid
    topological orders of the recorded topology (the gonum contract, validated per case) *)
+Definition flag (i : nat) (l : list nat) : bool := Nat.eqb (nth i l 0) 1.
+
+(* the contexts of the run: L[18] = [Start's context already done; Shutdown's context already done],
+   L[19..22] = extensions / components that end the context in Start, in Shutdown,
+   L[23], L[24] = context-sensitive extensions / components (return ctx.Err() when the context is done) *)
+Definition cx_of (L : list (list nat)) : cx :=
+  {| d0_start := flag 0 (nthL 18 L); d0_stop := flag 1 (nthL 18 L);
+     xc_start := fun n => mem n (nthL 19 L); cc_start := fun n => mem n (nthL 20 L);
+     xc_stop := fun n => mem n (nthL 21 L); cc_stop := fun n => mem n (nthL 22 L);
+     x_sens := fun n => mem n (nthL 23 L); c_sens := fun n => mem n (nthL 24 L) |}.
+
+(* kinds 0 and 1 are the life time of a service without extensions / without pipelines
+   (Properties.graph_lifetime_is_run, ext_lifetime_is_run); the harnesses pass empty lists there *)
 Definition model_raw (kind : nat) (L : list (list nat)) (P : list (list (nat * nat)))
   : option (list ev * list err) :=
   let g := graph_of L P in let x := extset_of L P in let o := orders_of L in let f := faults_of L in
-  let valid := match kind with
-               | 0 => is_topo (nodes g) (edges g) (start_order o) && is_topo (nodes g) (edges g) (stop_order o)
-               | 1 => is_topo (exts x) (deps x) (ext_order o)
-               | _ => orders_ok g x o
-               end in
-  if valid then
-    Some match kind with
-         | 0 => graph_lifetime g o f
-         | 1 => ext_lifetime o f
-         | _ => collector_run g x o f
-         end
-  else None.
+  if orders_ok g x o then Some (collector_run_cx g x o f (cx_of L)) else None.
 
 Definition model_lifecycle (kind : nat) (L : list (list nat)) (P : list (list (nat * nat)))
   : option (list (nat * nat) * list (nat * nat)) :=
